@@ -19,11 +19,11 @@ PROPERTY_LEVEL = {
 ALL_TAGS = {"core", "lat", "agg", "sugar", "mac"}     # (BYODS programs are judged by C10-C12)
 
 PLANS = {
-    "C01": dict(tags={"core"}, variants=["ser", "to"], cap={"quick": 400, "thorough": 3000},
+    "C01": dict(tags={"core"}, variants=["ser", "to"], cap={"quick": 400, "thorough": 8000},
                 what="relations, joins, constants, repeated variables, wildcards, if/let/if-let, generators"),
-    "C03": dict(tags={"lat"}, variants=["ser", "to"], cap={"quick": 400, "thorough": 3000},
+    "C03": dict(tags={"lat"}, variants=["ser", "to"], cap={"quick": 400, "thorough": 8000},
                 what="lattice relations over 8 shipped lattice types, recursive through the lattice"),
-    "C04": dict(tags={"agg"}, variants=["ser", "par"], cap={"quick": 400, "thorough": 3000},
+    "C04": dict(tags={"agg"}, variants=["ser", "par"], cap={"quick": 400, "thorough": 8000},
                 what="negation and aggregation at stratum depth 1-4 over relations and lattices, bound/wildcard/aggregated columns"),
     "C05": dict(tags=ALL_TAGS, variants=["ser", "par"], cap={"quick": 50, "thorough": 400}, dupfamily=True,
                 what="every corpus program, serial and parallel: multiset view of every relation"),
@@ -224,7 +224,7 @@ def run(pid, tier, seed, replay=None):
     # shuffled push order (the oracle is still TLC: TraceSem recomputes the least model of whatever was pushed)
     nrand = 0
     if not replay:
-        per_prog = plan.get("random", {"quick": 6, "thorough": 40})[tier]
+        per_prog = plan.get("random", {"quick": 6, "thorough": 150})[tier]
         rnd_items = []
         for p in sel:
             if "order" in p["tags"]:
